@@ -41,6 +41,12 @@ pub struct Observed {
     pub panic: Option<String>,
 }
 
+impl Observed {
+    pub fn counter_sum(&self, keys: &[&str]) -> u64 {
+        keys.iter().map(|k| self.counters.get(k).copied().unwrap_or(0)).sum()
+    }
+}
+
 pub fn fault_count(c: &BTreeMap<&'static str, u64>) -> u64 {
     ["preempt", "short_read", "short_write", "emfile", "eagain_fork", "signal_injected"]
         .iter()
@@ -171,7 +177,10 @@ pub fn check_liveness(obs: &Observed) -> Option<Viol> {
         .filter(|p| p.state == "running" || p.state.starts_with("stopped"))
         .map(|p| format!("pid {} ({})", p.pid, p.state))
         .collect();
-    if o.stalled || !o.main_done || !alive.is_empty() {
+    // (A task object may outlive its process - e.g. the task of a process killed
+    // while stopped is never polled again - which is invisible to any process;
+    // what matters is that no *process* is left unfinished.)
+    if !o.main_done || !alive.is_empty() {
         return Some((
             "deadlock".into(),
             "deadlock".into(),
